@@ -1,7 +1,17 @@
 import GqlVerif.Props.C06
+import GqlVerif.Proofs.C06Sound
 open GqlVerif.C06
 #print axioms typename_check_sound
 #print axioms fieldsHaveTypenameList_sound
 #print axioms condition_check_sound
 #print axioms resolve_ok_validated
 #print axioms no_selection_accepted
+-- the assembled soundness theorem (Proofs/C06Sound.lean)
+open GqlVerif.C06Sound in
+#print axioms resolve_sound_partial
+open GqlVerif.C06Sound in
+#print axioms invalid_rejected
+open GqlVerif.C06Sound in
+#print axioms resolve_struct_sound
+open GqlVerif.C06Sound in
+#print axioms schemaOk_needed
